@@ -4,7 +4,10 @@ package load
 
 import (
 	"encoding/json"
+	"fmt"
 	"math"
+	"regexp"
+	"strconv"
 	"sync/atomic"
 	"testing"
 	"time"
@@ -94,5 +97,68 @@ func TestVerifDriver(t *testing.T) {
 				int64(exp - 53), dropped, ot, as.maxFlight()})
 		}
 		return map[string]any{"panic": false, "rows": rows, "ops": executed, "windows": as.windows}
+	})
+}
+
+// ---------------------------------------------------------------- shedding statistics
+
+// verifStatWriter is a logx.Writer that hands every Stat line to the driver.
+type verifStatWriter struct{ lines chan string }
+
+func (w *verifStatWriter) Close() error                         { return nil }
+func (w *verifStatWriter) Debug(v any, fields ...logx.LogField) {}
+func (w *verifStatWriter) Info(v any, fields ...logx.LogField)  {}
+func (w *verifStatWriter) Alert(v any)                          {}
+func (w *verifStatWriter) Error(v any, fields ...logx.LogField) {}
+func (w *verifStatWriter) Severe(v any)                         {}
+func (w *verifStatWriter) Slow(v any, fields ...logx.LogField)  {}
+func (w *verifStatWriter) Stack(v any)                          {}
+func (w *verifStatWriter) Stat(v any, fields ...logx.LogField)  { w.lines <- fmt.Sprint(v) }
+
+// TestVerifDriverStat: {"ops": [0 IncrTotal | 1 IncrPass | 2 IncrDrop | 3 reporting tick, ...]} on one
+// SheddingStat whose loop runs on a scripted tick channel; per tick the [total, pass, drop] of the line it logged
+// ([-1,-1,-1] when no line arrived).
+func TestVerifDriverStat(t *testing.T) {
+	w := &verifStatWriter{lines: make(chan string, 16)}
+	logx.SetWriter(w)
+	num := regexp.MustCompile(`请求: (-?\d+), 通过: (-?\d+), 丢弃: (-?\d+)`)
+	verifdrv.Run(t, func(raw json.RawMessage) any {
+		var c struct {
+			Ops []int `json:"ops"`
+		}
+		if err := json.Unmarshal(raw, &c); err != nil {
+			return map[string]any{"error": err.Error()}
+		}
+		st := &SheddingStat{name: "verif"}
+		ticks := make(chan time.Time)
+		done := make(chan struct{})
+		go func() { st.loop(ticks); close(done) }()
+		rows := [][]int64{}
+		for _, op := range c.Ops {
+			switch op {
+			case 0:
+				st.IncrTotal()
+			case 1:
+				st.IncrPass()
+			case 2:
+				st.IncrDrop()
+			case 3:
+				ticks <- time.Time{}
+				row := []int64{-1, -1, -1}
+				select {
+				case line := <-w.lines:
+					if m := num.FindStringSubmatch(line); m != nil {
+						for i := range row {
+							row[i], _ = strconv.ParseInt(m[i+1], 10, 64)
+						}
+					}
+				case <-time.After(2 * time.Second):
+				}
+				rows = append(rows, row)
+			}
+		}
+		close(ticks)
+		<-done
+		return map[string]any{"ticks": rows}
 	})
 }
